@@ -44,7 +44,9 @@ spec('inv_ikesa_d', {'s': S, 'd': Int}, Bool,
      'and implies(s.state != 0 and s.state != 2 and s.state != 21, '
      '    s.my_crypto is not None and s.peer_crypto is not None) '
      'and implies(s.peer_msg_id > 0, s.last_sent_response_data is not None) '
-     'and (s.new_ike_sa is None or (live_ref(s.new_ike_sa) and not (s.new_ike_sa == s)))')
+     'and (s.new_ike_sa is None or (live_ref(s.new_ike_sa) and not (s.new_ike_sa == s))) '
+     # I6 (C16): an IKE_SA that has been rekeyed (REKEYED, or deleting itself after its own rekey) has a successor
+     'and implies(s.state == 20 or s.state == 16, s.new_ike_sa is not None)')
 # the successor IKE_SA an entry point leaves in new_ike_sa is the one it found there or one it allocated
 # itself (so writes through self.new_ike_sa never reach an unrelated pre-existing IKE_SA)
 spec('new_sa_local', {'s': S}, Bool,
